@@ -20,7 +20,6 @@ package iam
 
 import (
 	"context"
-	"errors"
 	"fmt"
 	"net/http"
 	"time"
@@ -171,25 +170,20 @@ func (r Wrapper) validateS2SPresentationNonce(presentation vc.VerifiablePresenta
 			Description:   "presentation has invalid/missing nonce",
 		}
 	}
-	nonceError := r.s2sNonceStore().Get(nonce, new(bool))
-	if nonceError != nil && errors.Is(nonceError, storage.ErrNotFound) {
-		// this is OK, nonce has not been used before
-		nonceError = nil
-	} else if nonceError == nil {
-		// no store error: value was retrieved from store, meaning the nonce has been used before
-		nonceError = oauth.OAuth2Error{
+	// Check that the nonce has not been used before and register it as used, in one step:
+	// the nonce of the VP must not be used again, also not by a request that is handled concurrently.
+	fresh, err := r.s2sNonceStore().PutIfAbsent(nonce, true)
+	if err != nil {
+		return fmt.Errorf("unable to store nonce: %w", err)
+	}
+	if !fresh {
+		// value was already present in the store, meaning the nonce has been used before
+		return oauth.OAuth2Error{
 			Code:        oauth.InvalidRequest,
 			Description: "presentation nonce has already been used",
 		}
 	}
-	// Other error occurred. Keep error to report after storing nonce.
-
-	// Regardless the result of the nonce checking, the nonce of the VP must not be used again.
-	// So always store the nonce.
-	if err := r.s2sNonceStore().Put(nonce, true); err != nil {
-		nonceError = errors.Join(fmt.Errorf("unable to store nonce: %w", err), nonceError)
-	}
-	return nonceError
+	return nil
 }
 
 // extractNonce extracts the nonce from the presentation.
